@@ -72,9 +72,17 @@ class Ctx:
     def build(self, race=False, tags="verif"):
         """Build harness/cmd/vh against /repo's current working tree."""
         h = os.path.join(VERIF, "harness")
-        shutil.copyfile(os.path.join(REPO, "go.sum"), os.path.join(h, "go.sum"))
         out = self.path("bin", "vh-race" if race else "vh")
         cmd = ["go", "build", "-tags", tags, "-o", out]
+        if REPO == "/repo":
+            shutil.copyfile(os.path.join(REPO, "go.sum"), os.path.join(h, "go.sum"))
+        else:
+            # self-test against a scratch worktree: alternative go.mod whose replace points there
+            alt = self.path("gomod", "go.alt.mod")
+            txt = open(os.path.join(h, "go.mod")).read().replace("=> /repo", "=> " + REPO)
+            open(alt, "w").write(txt)
+            shutil.copyfile(os.path.join(REPO, "go.sum"), alt[:-4] + ".sum")
+            cmd += ["-modfile", alt]
         if race:
             cmd.append("-race")
         cmd.append("./cmd/vh")
